@@ -101,6 +101,24 @@ CHECKS = {
    design_ref="DESIGN.md section 3, C16",
    note="Needs a working strace -f for the syscall-order and transient-listener observations (self-tested at run start; recorded in the evidence as strace_available).",
    technique="runtime monitoring: external process/syscall monitor (strace) plus raw stdio and file-system observation"),
+ "C14": dict(
+   category="exploration",
+   text="Runtime monitor over the configuration cross product (576 cells + option conflicts; quick = seeded sample with every expectation kind, thorough = exhaustive): each cell launches a real plugin subprocess and records start error class, protocol in use, Ping, identity-tagged call, brokered callbacks in both directions, an 8 MiB response, Dispense of an unknown name, process state after refusals, hangs and panics; a classification table written from the statement (MUST_WORK / MUST_FAIL_AT_START(kind) / MUST_NOT_WORK / EITHER_BUT_CLEAN) is the oracle.",
+   design_ref="DESIGN.md section 3, C14",
+   note="Documented-unsupported combinations (AutoMTLS+TLSProvider, AutoMTLS+reattach) are only required to be clean; static TLS is configured so that both sides can act as TLS server and client (brokered connections need both roles).",
+   technique="runtime monitoring: classification-table oracle over the real configuration cross product (exhaustive in thorough)"),
+ "C15": dict(
+   category="exploration",
+   text="Runtime monitor: seeded histories of reattach (first and second generation), put/get through any client, concurrent put/get through two clients, kill through any client and reattach-after-death, against real plugin processes and in-process test-mode servers; oracles: reference {alive,dead} state machine with a sequential store, instance-id equality, /proc state, errors.Is(ErrProcessNotFound), CloseCh, and a porcupine per-key register linearizability check of the concurrent phase.",
+   design_ref="DESIGN.md section 3, C15",
+   note="Test-mode cases run in a host process of their own because the serving process is the host.",
+   technique="runtime monitoring: reference state machine + porcupine register linearizability over recorded histories"),
+ "C18": dict(
+   category="exploration",
+   text="Runtime monitor: seeded histories of dispenses / brokered connections in both directions / stdio followed by Kill, over protocol x TLS x launch method, real subprocesses with private sandboxes on both sides; after a graceful exit (cleanup marker present) the monitor lists both sandboxes for socket files and plugin-dir* directories and compares a goroutine dump of the host (filtered on go-plugin frames) with the count before the case, polling up to 10 s.",
+   design_ref="DESIGN.md section 3, C18",
+   note="One case at a time per host process so that goroutines are attributable; only graceful exits are judged.",
+   technique="runtime monitoring: file-system listing + goroutine-dump leak monitor after graceful shutdown"),
 }
 PENDING_REASON = "check not built yet in this revision; it is planned as a runtime monitor (see DESIGN.md section 3) and will move to 'checks' when it exists"
 
